@@ -62,7 +62,7 @@ type pxOut struct {
 
 var pxOnce sync.Once
 var pxSeenBranches = map[string]bool{}
-var pxBranchRe = regexp.MustCompile(`^(?i:via|v)\s*:\s*SIP/2\.0/(?:UDP|TCP) ([0-9.]+):(\d+);branch=(z9hG4bK[0-9a-f]{12})\s*$`)
+var pxBranchRe = regexp.MustCompile(`^(?i:via|v)\s*:\s*SIP/2\.0/(?:UDP|TCP) ([0-9.]+):(\d+);branch=(z9hG4bK[0-9a-f]{12})(?:;[^\r\n,]*)?\s*$`)
 
 // "proxytb": the same driver; its cases configure tcp:// backends and use two more event kinds (bdata / bclose: the
 // connection the proxy has open TO a peer address, whichever number it got)
@@ -73,6 +73,45 @@ func init() {
 		defer func() { pxTB = false }()
 		runProxyCase(k, o)
 	}
+	// "proxysp": spirals - a request whose next hop is one of the proxy's own UDP sockets comes back in and is processed
+	// again (and again): the barrier is repeated after every datagram event, so that every pass has been made before the
+	// peers are drained, and the OS-chosen source port of the proxy's own client socket is canonicalised where the proxy
+	// stamps it (rport of a Via whose received value is a listener address)
+	components["proxysp"] = func(k *toks, o *out) {
+		pxSp = true
+		defer func() { pxSp = false }()
+		runProxyCase(k, o)
+	}
+}
+
+var pxSp bool
+var pxRportRe1 = regexp.MustCompile(`(;rport=)\d+((?:;[^;,\r\n]*)*;received=)([0-9.]+)`)
+var pxRportRe2 = regexp.MustCompile(`(;received=)([0-9.]+)((?:;[^;,\r\n]*)*;rport=)\d+`)
+
+func (pc *pxCase) canonSpiral(b []byte) []byte {
+	own := func(a string) bool {
+		for _, l := range pc.listens {
+			if l.addr == a {
+				return true
+			}
+		}
+		return false
+	}
+	b = pxRportRe1.ReplaceAllFunc(b, func(m []byte) []byte {
+		s := pxRportRe1.FindSubmatch(m)
+		if own(string(s[3])) {
+			return []byte(string(s[1]) + "0" + string(s[2]) + string(s[3]))
+		}
+		return m
+	})
+	b = pxRportRe2.ReplaceAllFunc(b, func(m []byte) []byte {
+		s := pxRportRe2.FindSubmatch(m)
+		if own(string(s[2])) {
+			return []byte(string(s[1]) + string(s[2]) + string(s[3]) + "0")
+		}
+		return m
+	})
+	return b
 }
 
 // in "proxytb" cases the barrier pushed through a connection the proxy dialled is a RESPONSE (routed to the barrier
@@ -275,6 +314,9 @@ func (pc *pxCase) drain(e int) (outs []pxOut, closed []int) {
 	for i := range outs {
 		if !strings.HasPrefix(outs[i].label, "dial:") {
 			outs[i].data = pc.canon(outs[i].data)
+			if pxSp {
+				outs[i].data = pc.canonSpiral(outs[i].data)
+			}
 		}
 	}
 	return
@@ -560,6 +602,13 @@ func runProxyCase(k *toks, o *out) {
 			}
 			src.c.WriteToUDP(data, &net.UDPAddr{IP: net.ParseIP(pc.listens[li].addr), Port: pc.listens[li].udp})
 			pc.udpBarrier(li)
+			if pxSp {
+				// a datagram the proxy sent to itself while handling this one is queued behind the first barrier: one more
+				// round per possible pass, through every listener
+				for round := 0; round < 4; round++ {
+					pc.anyBarrier()
+				}
+			}
 		case "accept":
 			li, ip, port := k.int(), k.str(), k.int()
 			if li < 0 || li >= len(pc.listens) {
